@@ -379,15 +379,60 @@ func (g *genState) toyVsStdlib(in, obs Sx) {
 	}
 }
 
-func lengthsQuick() []int {
+// quick tier: every length 0..300, every multiple of 64 +-1 up to 1024, and a seed-chosen
+// third of the multiples of 64 +-1 above (all of them are swept Go-side by toySweep)
+func lengthsQuick(rng *Rng) []int {
 	var l []int
 	for n := 0; n <= 300; n++ {
 		l = append(l, n)
 	}
 	for m := 320; m <= 4096; m += 64 {
-		l = append(l, m-1, m, m+1)
+		if m <= 1024 || rng.Chance(1, 3) || m == 4096 {
+			l = append(l, m-1, m, m+1)
+		}
 	}
 	return l
+}
+
+// Go-side: the unrolled code over the toy block against crypto/cipher CFB over the same
+// block, both directions, at EVERY length 0..4096 for both block sizes, on one pair of
+// scratch buffers carried through the whole sweep.
+func toySweep(out *Out, rng *Rng) {
+	for _, bs := range []int{8, 16} {
+		blk := &toyBlock{bs: bs, mul: byte(rng.Intn(256)) | 1, key: rng.Bytes(bs)}
+		iv := rng.Bytes(rng.Range(bs, 48))
+		encbuf, decbuf := rng.Bytes(bs), rng.Bytes(2*bs)
+		order := make([]int, 4097)
+		for i := range order {
+			order[i] = i
+		}
+		for i := len(order) - 1; i > 0; i-- {
+			j := rng.Intn(i + 1)
+			order[i], order[j] = order[j], order[i]
+		}
+		for _, n := range order {
+			seed := uint64(rng.Intn(1 << 16))
+			msg := lcg(seed, n)
+			in := List(Int(0), Int(int64(bs)), Int(int64(blk.mul)), Bytes(blk.key), Bytes(iv), Bytes(encbuf), Bytes(decbuf),
+				List(opEnc(seed, n), opDecOf(0)))
+			ct := append([]byte{}, msg...)
+			want := make([]byte, n)
+			var back []byte
+			p, _ := Catch(func() {
+				xcipher.VerifEncrypt(blk, iv, ct, ct, encbuf)
+				stdcipher.NewCFBEncrypter(blk, iv[:bs]).XORKeyStream(want, msg)
+				back = append([]byte{}, ct...)
+				xcipher.VerifDecrypt(blk, iv, back, back, decbuf)
+			})
+			out.GoChecked += 2
+			if p || !bytes.Equal(ct, want) {
+				violation(out, fmt.Sprintf("C16/stdlib-cfb/toy%d", bs), fmt.Sprintf("unrolled CFB over a toy %d-byte block differs from crypto/cipher CFB (length %d)", bs, n), in)
+			} else if !bytes.Equal(back, msg) {
+				violation(out, fmt.Sprintf("C16/roundtrip/toy%d", bs), fmt.Sprintf("decrypt(encrypt(m)) != m over a toy %d-byte block (length %d)", bs, n), in)
+			}
+		}
+	}
+	out.Note("Go-side toy sweep: both block sizes x every length 0..4096 through the unrolled code vs crypto/cipher CFB and round trip, scratch buffers carried")
 }
 
 func gen(a Args, out *Out) {
@@ -399,7 +444,7 @@ func gen(a Args, out *Out) {
 			lens = append(lens, n)
 		}
 	} else {
-		lens = lengthsQuick()
+		lens = lengthsQuick(rng)
 	}
 	for _, bs := range []int{8, 16} {
 		// shuffle the lengths, cut into sessions of 1..5 messages
@@ -494,6 +539,7 @@ func gen(a Args, out *Out) {
 			out.Count("factory-case:" + rc.name)
 		}
 	}
+	toySweep(out, rng.Fork())
 	factorySweep(a, out, rng.Fork())
 }
 
